@@ -73,9 +73,6 @@ func (r *FeatureLocal) AddFunctionType(function model.FunctionType, read, write 
 	if r.role != model.RoleTypeServer && r.role != model.RoleTypeSpecial {
 		return
 	}
-	if r.operations[function] != nil {
-		return
-	}
 	writePartial := false
 	if write {
 		// partials are not supported on all features and functions, so check if this function supports it
@@ -83,8 +80,15 @@ func (r *FeatureLocal) AddFunctionType(function model.FunctionType, read, write 
 			writePartial = fctData.SupportsPartialWrite()
 		}
 	}
+
+	r.muxFeature.Lock()
+	if r.operations[function] != nil {
+		r.muxFeature.Unlock()
+		return
+	}
 	// partial reads are currently not supported!
 	r.operations[function] = NewOperations(read, false, write, writePartial)
+	r.muxFeature.Unlock()
 
 	if r.role == model.RoleTypeServer &&
 		r.ftype == model.FeatureTypeTypeDeviceDiagnosis &&
@@ -96,6 +100,9 @@ func (r *FeatureLocal) AddFunctionType(function model.FunctionType, read, write 
 
 func (r *FeatureLocal) Functions() []model.FunctionType {
 	var fcts []model.FunctionType
+
+	r.muxFeature.RLock()
+	defer r.muxFeature.RUnlock()
 
 	for key := range r.operations {
 		fcts = append(fcts, key)
@@ -865,6 +872,9 @@ func (r *FeatureLocal) functionData(function model.FunctionType) api.FunctionDat
 }
 
 func (r *FeatureLocal) Information() *model.NodeManagementDetailedDiscoveryFeatureInformationType {
+	r.muxFeature.RLock()
+	defer r.muxFeature.RUnlock()
+
 	var funs []model.FunctionPropertyType
 	for fun, operations := range r.operations {
 		var functionType = model.FunctionType(fun)
